@@ -11,6 +11,8 @@ CONSTANTS TOKENS,    \* subset of {"TA","TB","TC","TD","TX"}: what the user of A
           DEPTHS,    \* subset of 1..3: number of hops (1 = no forwarding)
           AMTS, RETS, TOS,
           FINS,      \* subset of {"rcvr","bad"}: final receiver valid / invalid
+          MIDS,      \* subset of {"pfm","rcvr"}: receiver named for the intermediate hops (a placeholder that is not an
+                     \* address / a valid account; the middleware overrides it while the packet carries a memo)
           BADHOPS,   \* subset of 0..2: index of the forward hop that names a missing channel (0 = none)
           EXPS       \* timeouts of the user's own packet (ticks, 0 = never)
 
@@ -24,7 +26,7 @@ Genesis == [now |-> 0,
                              <<"C", "user", Native("TC")>>, <<"D", "user", Native("TD")>> } |-> 1000],
             sup |-> [k \in { <<"A", Native("TA")>>, <<"B", Native("TB")>>, <<"C", Native("TC")>>, <<"D", Native("TD")>> } |-> 1000],
             inf |-> {}, ns |-> [k \in UNION { { <<EndsOf(L)[1], L>>, <<EndsOf(L)[2], L>> } : L \in Links } |-> 1],
-            pk |-> {}, recv |-> EmptyFn, ackw |-> EmptyFn, done |-> {}, refd |-> {}]
+            pk |-> {}, recv |-> EmptyFn, ackw |-> EmptyFn, done |-> {}, refd |-> {}, off |-> {}]
 
 \* one plain transfer of n of d from the user of c to the user of the other end of L, relayed to completion
 Plain(S, c, L, d, n) ==
@@ -54,12 +56,13 @@ SetUp == LET s1 == Plain(Genesis, "B", "AB", Native("TB"), 500)
 (***************************************************************************)
 RouteLinks(route) == CASE route = "std" -> <<"BC", "CD">> [] route = "x" -> <<"BX", "CD">> [] route = "xb" -> <<"BX", "BC">>
 
-Memo(route, depth, fin, ret, to, badhop) ==
-    [i \in 1..(depth - 1) |-> [L |-> RouteLinks(route)[i], rcv |-> IF i = depth - 1 THEN fin ELSE "pfm", to |-> to, ret |-> ret, chok |-> i # badhop]]
+Memo(route, depth, fin, mid, ret, to, badhop) ==
+    [i \in 1..(depth - 1) |-> [L |-> RouteLinks(route)[i], rcv |-> IF i = depth - 1 THEN fin ELSE mid, to |-> to, ret |-> ret, chok |-> i # badhop]]
 
 Journeys == { [a |-> "Transfer", dt |-> 1, c |-> "A", L |-> "AB", d |-> TokenDenom(tok), amt |-> amt,
-               rcv |-> IF depth = 1 THEN fin ELSE "pfm", memo |-> Memo(route, depth, fin, ret, to, bh), exp |-> exp]
-              : tok \in TOKENS, route \in ROUTES, depth \in DEPTHS, amt \in AMTS, fin \in FINS, ret \in RETS, to \in TOS, bh \in BADHOPS, exp \in EXPS }
+               rcv |-> IF depth = 1 THEN fin ELSE mid, memo |-> Memo(route, depth, fin, mid, ret, to, bh), exp |-> exp]
+              : tok \in TOKENS, route \in ROUTES, depth \in DEPTHS, amt \in AMTS, fin \in FINS, mid \in MIDS, ret \in RETS, to \in TOS,
+                bh \in BADHOPS, exp \in EXPS }
 
 \* the chain the last hop of the journey delivers to: B, then along the links of the memo
 RECURSIVE Along(_, _)
@@ -81,6 +84,14 @@ TimeoutDt(S, P) == IF P.exp + 1 - S.now < 1 THEN 1 ELSE P.exp + 1 - S.now
 TimeoutActs(S) == { [a |-> "Timeout", dt |-> TimeoutDt(S, P), pkt |-> P] : P \in { Q \in Unfinished(S) : Id(Q) \notin DOMAIN S.recv /\ Q.exp # 0 } }
 
 Relay(S) == RecvActs(S) \cup AckActs(S) \cup TimeoutActs(S)
+
+\* transfer parameter SendEnabled of an intermediate chain switched off while a forward with retries left is in flight
+\* there (the retry cannot be sent), and switched on again
+RetryPending(S) == { r.c : r \in { x \in S.inf : x.ret > 0 } }
+\* ... or while a packet that asks to be forwarded is on its way to the chain (the forward cannot be sent)
+ForwardPending(S) == { Other(P.L, P.src) : P \in { Q \in S.pk : Id(Q) \notin S.done /\ Id(Q) \notin DOMAIN S.recv /\ Q.memo # <<>> } }
+SendOffActs(S) == { [a |-> "SetSend", dt |-> 1, c |-> c, on |-> FALSE] : c \in (RetryPending(S) \cup ForwardPending(S)) \ S.off }
+SendOnActs(S)  == { [a |-> "SetSend", dt |-> 1, c |-> c, on |-> TRUE] : c \in S.off }
 
 \* attempts that must be rejected: a receive at / after the timeout, a timeout at / before it, relays of finished packets,
 \* acknowledgements that were never written
